@@ -4,7 +4,6 @@ import (
 	"fmt"
 	"go/token"
 	"go/types"
-	"sort"
 	"strings"
 
 	"golang.org/x/tools/go/ssa"
@@ -1086,408 +1085,18 @@ func fixedAppends(fn *ssa.Function) []appendedBytes {
 }
 
 func ruleCodecFlags(r *Report) {
-	h := r.Rule("C05.flags", "A+S", "every buffer writer agrees with the reader on the header byte: the delta==1 arm sets the next-flag and writes no offset, the other arm clears it and writes exactly one varint offset after the payload; the size tag equals the payload width (strings: string flag + 2 length bytes); the reader pairs string/fixed decoding with offset++/varint per flag combination and derives widths {0,2,4,8} from the size tag", 8)
-	isNext, _ := r.P.ConstVal("commit", "isNext")
-	isString, _ := r.P.ConstVal("commit", "isString")
-	var fNext, fString int64
-	fmt.Sscanf(isNext, "%d", &fNext)
-	fmt.Sscanf(isString, "%d", &fString)
-	type wr struct {
-		name    string
-		payload int   // fixed payload bytes after the header
-		tag     int64 // expected size tag | string flag
-	}
-	sz := func(n string) int64 {
-		v, _ := r.P.ConstVal("commit", n)
-		var x int64
-		fmt.Sscanf(v, "%d", &x)
-		return x
-	}
-	writers := []wr{
-		{"(*commit.Buffer).PutOperation", 0, sz("size0")},
-		{"(*commit.Buffer).writeUint16", 2, sz("size2")},
-		{"(*commit.Buffer).writeUint32", 4, sz("size4")},
-		{"(*commit.Buffer).writeUint64", 8, sz("size8")},
-		{"(*commit.Buffer).PutBytes", 2, sz("size2") | fString},
-	}
-	for _, w := range writers {
-		fn := r.Anchor(w.name)
-		if fn == nil {
-			continue
-		}
-		wc := callsTo(fn, false, "(*commit.Buffer).writeChunk")
-		if len(wc) != 1 {
-			h.Bad(w.name, r.P.Pos(fn.Pos()), "writeChunk not called exactly once")
-			continue
-		}
-		// branch on delta == 1
-		var nextB, otherB *ssa.BasicBlock
-		for _, b := range fn.Blocks {
-			iff, ok := b.Instrs[len(b.Instrs)-1].(*ssa.If)
-			if !ok {
-				continue
-			}
-			if bo, ok := iff.Cond.(*ssa.BinOp); ok && bo.Op == token.EQL && sameExpr(bo.X, wc[0].(*ssa.Call)) {
-				if one, isC := constInt(bo.Y); isC && one == 1 {
-					nextB, otherB = b.Succs[0], b.Succs[1]
-				}
-			}
-		}
-		if nextB == nil {
-			h.Bad(w.name, r.P.Pos(fn.Pos()), "no branch on delta == 1")
-			continue
-		}
-		apps := fixedAppends(fn)
-		msg := ""
-		seen := map[string]bool{}
-		for _, a := range apps {
-			if len(a.elems) == 0 || a.elems[0] == nil {
-				continue
-			}
-			k, nconst := orConsts(a.elems[0])
-			if nconst == 0 {
-				// byte(op)|size0 folds to a bare conversion: only PutOperation's general arm
-				continue
-			}
-			inNext := nextB.Dominates(a.ins.Block())
-			inOther := otherB.Dominates(a.ins.Block())
-			if !inNext && !inOther {
-				msg = "a header is appended outside the two delta arms"
-				continue
-			}
-			if inNext {
-				seen["next"] = true
-				if k&fNext == 0 {
-					msg = "the delta==1 arm does not set the next-flag"
-				}
-			} else {
-				seen["other"] = true
-				if k&fNext != 0 {
-					msg = "the general arm sets the next-flag although it writes an offset"
-				}
-			}
-			if k&^fNext != w.tag {
-				msg = fmt.Sprintf("header tag %#x does not match the payload (expected %#x)", k&^fNext, w.tag)
-			}
-			if len(a.elems)-1 != w.payload {
-				msg = fmt.Sprintf("%d payload bytes appended with the header, expected %d", len(a.elems)-1, w.payload)
-			}
-		}
-		if w.name == "(*commit.Buffer).PutOperation" {
-			// size0 == 0: header is byte(op)|isNext in the next arm and plain byte(op) in the other
-			seen["other"] = true
-			if !seen["next"] {
-				// look for the bare form
-				seen["next"] = len(apps) >= 1
-			}
-		}
-		wo := callsTo(fn, false, "(*commit.Buffer).writeOffset")
-		for _, o := range wo {
-			if nextB.Dominates(o.Block()) {
-				msg = "the delta==1 arm writes an offset"
-			}
-		}
-		okOther, _ := mustPassToReturn(otherB, 0, isCallOrDefer("(*commit.Buffer).writeOffset"))
-		if !okOther || len(wo) != 1 {
-			msg = "the general arm does not write exactly one offset"
-		} else {
-			oc, _, _ := callCommon(wo[0])
-			if !sameExpr(oc.Args[1], wc[0].(*ssa.Call)) {
-				msg = "the offset written is not the delta returned by writeChunk"
-			}
-			// offset comes after the payload: no append after writeOffset
-			for _, a := range apps {
-				if canReach(wo[0], a.ins) {
-					msg = "payload appended after the offset"
-				}
-			}
-		}
-		if !seen["next"] || !seen["other"] {
-			msg = "header byte of one of the arms not recognised"
-		}
-		h.Check(msg == "", w.name, r.P.Pos(fn.Pos()), "both arms agree with the reader", msg)
-	}
-	// reader: readFixed size expression
-	if fn := r.Anchor("(*commit.Reader).readFixed"); fn != nil {
-		var sizeV ssa.Value
-		allInstrs(fn, func(ins ssa.Instruction) {
-			// r.last += size : find the BinOp ADD whose Y is not constant
-			if bo, ok := ins.(*ssa.BinOp); ok && bo.Op == token.ADD {
-				if _, isC := constInt(bo.Y); !isC {
-					if fr, ok := loadedField(bo.X); ok && fr.Field == "last" {
-						sizeV = bo.Y
-					}
-				}
-			}
-		})
-		ok := sizeV != nil
-		if ok {
-			for tag, want := range map[int64]int64{sz("size0"): 0, sz("size2"): 2, sz("size4"): 4, sz("size8"): 8} {
-				for _, extra := range []int64{0, fNext, 3, fNext | 2} {
-					got, okE := evalInt(sizeV, map[ssa.Value]int64{fn.Params[1]: tag | extra})
-					if !okE || got != want {
-						ok = false
-					}
-				}
-			}
-		}
-		h.Check(ok, "(*commit.Reader).readFixed", r.P.Pos(fn.Pos()), "size tag ↦ {0,2,4,8}", "readFixed does not derive payload widths 0/2/4/8 from the four size tags")
-	}
-	// reader: Next arms
-	if fn := r.Anchor("(*commit.Reader).Next"); fn != nil {
-		// classify blocks by the constants compared with header & 0xc0
-		type arm struct{ str, next bool }
-		arms := map[*ssa.BasicBlock]arm{}
-		var defaultB *ssa.BasicBlock
-		for _, b := range fn.Blocks {
-			iff, ok := b.Instrs[len(b.Instrs)-1].(*ssa.If)
-			if !ok {
-				continue
-			}
-			bo, ok := iff.Cond.(*ssa.BinOp)
-			if !ok || bo.Op != token.EQL {
-				continue
-			}
-			k, isC := constInt(bo.Y)
-			if !isC {
-				continue
-			}
-			if m, isM := bo.X.(*ssa.BinOp); isM && m.Op == token.AND {
-				if mask, isC := constInt(m.Y); isC && mask == fNext|fString {
-					arms[b.Succs[0]] = arm{k&fString != 0, k&fNext != 0}
-					defaultB = b.Succs[1]
-				}
-			}
-		}
-		if defaultB != nil {
-			if _, has := arms[defaultB]; !has {
-				if _, isIf := defaultB.Instrs[len(defaultB.Instrs)-1].(*ssa.If); !isIf {
-					arms[defaultB] = arm{false, false}
-				}
-			}
-		}
-		okArms := len(arms) == 4
-		combos := map[arm]bool{}
-		for b, a := range arms {
-			combos[a] = true
-			has := func(name string) bool {
-				return blockHas(b, 0, isCallOrDefer(name))
-			}
-			inc := blockHas(b, 0, func(ins ssa.Instruction) bool {
-				st, ok := ins.(*ssa.Store)
-				if !ok {
-					return false
-				}
-				if fr, ok := fieldOf(st.Addr); ok && fr.Field == "Offset" {
-					if bo, ok := st.Val.(*ssa.BinOp); ok && bo.Op == token.ADD {
-						one, isC := constInt(bo.Y)
-						return isC && one == 1
-					}
-				}
-				return false
-			})
-			if a.str != has("(*commit.Reader).readString") || a.str == has("(*commit.Reader).readFixed") {
-				okArms = false
-			}
-			if a.next != inc || a.next == has("(*commit.Reader).readOffset") {
-				okArms = false
-			}
-		}
-		h.Check(okArms && len(combos) == 4, "(*commit.Reader).Next", r.P.Pos(fn.Pos()), "4 arms: string|fixed × offset++|varint", "Reader.Next does not pair string/fixed decoding with offset++/varint-offset for the four flag combinations")
-	}
-	// readString: 2-byte big-endian length, value after 3 header bytes
-	if fn := r.Anchor("(*commit.Reader).readString"); fn != nil {
-		adv3 := false
-		allInstrs(fn, func(ins ssa.Instruction) {
-			if bo, ok := ins.(*ssa.BinOp); ok && bo.Op == token.ADD {
-				if c, isC := constInt(bo.Y); isC && c == 3 {
-					if fr, ok := loadedField(bo.X); ok && fr.Field == "last" {
-						adv3 = true
-					}
-				}
-			}
-		})
-		h.Check(adv3, "(*commit.Reader).readString", r.P.Pos(fn.Pos()), "skips header + 2 length bytes", "readString does not skip the header byte and the two length bytes")
-	}
+	h := r.Rule("C05.flags", "W", "every buffer writer agrees with the reader on the header byte: the delta==1 arm sets the next-flag and writes no offset, the other arm clears it and writes exactly one varint offset after the payload; the size tag equals the payload width (strings: string flag + 2 big-endian length bytes); the reader pairs string/fixed decoding with offset++/varint per flag combination, derives widths {0,2,4,8} from the size tag and the operation type from the low nibble — decided on the enumerated paths of the writers and of Reader.Next (analysis W)", 8)
+	hv := r.Rule("C05.varint", "W", "offset deltas are written 7 bits at a time with a continuation bit and read back by five stages: the stage that consumes k bytes assembles Σ (byte_j & 0x7f) << 7j — decided on the enumerated paths of writeOffset and of Reader.Next", 2)
+	ruleWireWriters(r, h)
+	ruleWireNext(r, h, hv)
+	ruleWireVarintWriter(r, hv)
 }
 
-func ruleVarint(r *Report) {
-	h := r.Rule("C05.varint", "S", "offset deltas are written 7 bits at a time with a continuation bit and read back by at least five stages: stage k consumes k+1 bytes and shifts the last byte by 7k", 2)
-	if fn := r.Anchor("(*commit.Buffer).writeOffset"); fn != nil {
-		var cmp80, or80, shr7 bool
-		allInstrs(fn, func(ins ssa.Instruction) {
-			bo, ok := ins.(*ssa.BinOp)
-			if !ok {
-				return
-			}
-			c, isC := constInt(bo.Y)
-			if !isC {
-				return
-			}
-			switch {
-			case bo.Op == token.GEQ && c == 0x80:
-				cmp80 = true
-			case bo.Op == token.OR && c == 0x80:
-				or80 = true
-			case bo.Op == token.SHR && c == 7:
-				shr7 = true
-			}
-		})
-		h.Check(cmp80 && or80 && shr7, "(*commit.Buffer).writeOffset", r.P.Pos(fn.Pos()), "while ≥0x80: emit low 7 bits | 0x80, shift by 7", "writeOffset does not emit 7-bit groups with a continuation bit")
-	}
-	if fn := r.Anchor("(*commit.Reader).readOffset"); fn != nil {
-		// per returning block: advance of r.last and the shift applied to the last byte
-		type stage struct{ adv, shift int64 }
-		var stages []stage
-		for _, b := range fn.Blocks {
-			if _, isRet := b.Instrs[len(b.Instrs)-1].(*ssa.Return); !isRet {
-				continue
-			}
-			adv, shift := int64(-1), int64(0)
-			found := false
-			for _, ins := range b.Instrs {
-				st, ok := ins.(*ssa.Store)
-				if !ok {
-					continue
-				}
-				fr, ok := fieldOf(st.Addr)
-				if !ok {
-					continue
-				}
-				if bo, ok := st.Val.(*ssa.BinOp); ok && bo.Op == token.ADD {
-					if fr.Field == "last" {
-						if c, isC := constInt(bo.Y); isC {
-							adv = c
-						}
-					}
-					if fr.Field == "Offset" {
-						found = true
-						// int32(x | b<<s) or int32(b)
-						v := strip(bo.Y)
-						if or, ok := v.(*ssa.BinOp); ok && or.Op == token.OR {
-							if sh, ok := strip(or.Y).(*ssa.BinOp); ok && sh.Op == token.SHL {
-								if c, isC := constInt(sh.Y); isC {
-									shift = c
-								}
-							}
-						}
-					}
-				}
-			}
-			if found && adv > 0 {
-				stages = append(stages, stage{adv, shift})
-			}
-		}
-		sort.Slice(stages, func(i, j int) bool { return stages[i].adv < stages[j].adv })
-		ok := len(stages) >= 5
-		for i, s := range stages {
-			if s.adv != int64(i+1) || s.shift != int64(7*i) {
-				ok = false
-			}
-		}
-		// accumulation masks: (b & 0x7f) << 7k for k = 0..3
-		masks := map[int64]bool{}
-		allInstrs(fn, func(ins ssa.Instruction) {
-			bo, isB := ins.(*ssa.BinOp)
-			if !isB {
-				return
-			}
-			if bo.Op == token.SHL {
-				if in, isIn := strip(bo.X).(*ssa.BinOp); isIn && in.Op == token.AND {
-					if m, isC := constInt(in.Y); isC && m == 0x7f {
-						if s, isC := constInt(bo.Y); isC {
-							masks[s] = true
-						}
-					}
-				}
-			}
-			if bo.Op == token.AND {
-				if m, isC := constInt(bo.Y); isC && m == 0x7f {
-					masks[0] = true
-				}
-			}
-		})
-		for _, s := range []int64{0, 7, 14, 21} {
-			if !masks[s] {
-				ok = false
-			}
-		}
-		h.Check(ok, "(*commit.Reader).readOffset", r.P.Pos(fn.Pos()), fmt.Sprintf("%d stages: advance k+1, shift 7k", len(stages)), fmt.Sprintf("readOffset's stages %v do not decode k+1 bytes with shifts 7k (k=0..4): large or negative offset deltas decode wrongly", stages))
-	}
-}
+func ruleVarint(r *Report) {}
 
 func ruleHeaders(r *Report) {
 	h := r.Rule("C05.header", "P", "writeChunk appends a block header {block, position in the buffer, previous offset} exactly when the block changes and always records the last offset; Reader.Range restarts offset and start from the header's value and bounds the section by the next header", 5)
-	if fn := r.Anchor("(*commit.Buffer).writeChunk"); fn != nil {
-		// header append guarded by b.chunk != chunk
-		var hdrStore ssa.Instruction
-		fields := map[string]ssa.Value{}
-		allInstrs(fn, func(ins ssa.Instruction) {
-			st, ok := ins.(*ssa.Store)
-			if !ok {
-				return
-			}
-			if fr, ok := fieldOf(st.Addr); ok {
-				if fr.Struct == "commit.header" {
-					fields[fr.Field] = st.Val
-				}
-				if fr.Struct == "commit.Buffer" && fr.Field == "chunks" {
-					hdrStore = ins
-				}
-			}
-		})
-		guard := hdrStore != nil && edgeGuarded(hdrStore.Block(), func(c ssa.Value) (bool, bool) {
-			bo, ok := c.(*ssa.BinOp)
-			if !ok || (bo.Op != token.NEQ && bo.Op != token.EQL) {
-				return false, false
-			}
-			if fr, ok := loadedField(bo.X); ok && fr.Struct == "commit.Buffer" && fr.Field == "chunk" {
-				return true, bo.Op == token.NEQ
-			}
-			return false, false
-		})
-		startOK := false
-		if v := fields["Start"]; v != nil {
-			startOK = dependsOn(v, func(x ssa.Value) bool {
-				c, ok := x.(*ssa.Call)
-				if !ok {
-					return false
-				}
-				b, ok := c.Call.Value.(*ssa.Builtin)
-				if !ok || b.Name() != "len" {
-					return false
-				}
-				fr, ok := loadedField(c.Call.Args[0])
-				return ok && fr.Field == "buffer"
-			}, 3)
-		}
-		valueOK := false
-		if v := fields["Value"]; v != nil {
-			if fr, ok := loadedField(strip(v)); ok && fr.Field == "last" {
-				valueOK = true
-			}
-		}
-		chunkOK := fields["Chunk"] != nil
-		h.Check(guard && startOK && valueOK && chunkOK, "(*commit.Buffer).writeChunk/header", r.P.Pos(fn.Pos()), "block change ⇒ header{block, len(buffer), last}", "writeChunk does not append header{block, len(buffer), last} exactly when the block changes")
-		// b.chunk updated with the header; b.last = idx on every path; delta = idx - last(before)
-		lastOK, _ := mustPassToReturn(fn.Blocks[0], 0, func(ins ssa.Instruction) bool {
-			st, ok := ins.(*ssa.Store)
-			if !ok {
-				return false
-			}
-			fr, ok := fieldOf(st.Addr)
-			return ok && fr.Struct == "commit.Buffer" && fr.Field == "last" && dependsOn(st.Val, func(v ssa.Value) bool { return v == ssa.Value(fn.Params[1]) }, 3)
-		})
-		deltaOK := false
-		for _, ret := range returnsOf(fn) {
-			if bo, ok := ret.Results[0].(*ssa.BinOp); ok && bo.Op == token.SUB {
-				if fr, ok := loadedField(bo.Y); ok && fr.Field == "last" && dependsOn(bo.X, func(v ssa.Value) bool { return v == ssa.Value(fn.Params[1]) }, 3) {
-					deltaOK = true
-				}
-			}
-		}
-		h.Check(lastOK && deltaOK, "(*commit.Buffer).writeChunk/delta", r.P.Pos(fn.Pos()), "delta = idx - last; last = idx", "writeChunk does not return idx-last and record idx as the last offset on every path")
-	}
+	ruleWireHeaders(r, h)
 	// sentinel: writeChunk writes the first header because a fresh buffer's block is "none"
 	// (MaxUint32); every place that creates a Buffer must establish that (or copy it)
 	for fn := range r.P.modFunc {
@@ -1526,46 +1135,6 @@ func ruleHeaders(r *Report) {
 			}
 			h.Check(init, "sentinel/"+fnName(fn), r.P.InstrPos(ins), "fresh buffer starts with block = none", "a commit.Buffer is created without the \"no block yet\" sentinel in its chunk field (zero value = block 0): the first operation appended for block 0 gets no block header and is decoded relative to the previous section")
 		})
-	}
-	if fn := r.Anchor("(*commit.Reader).Range"); fn != nil {
-		st := fieldsStoredOn(fn, "commit.Reader")
-		fromHdr := func(vals []ssa.Value, field string) bool {
-			for _, v := range vals {
-				if dependsOn(v, func(x ssa.Value) bool {
-					fr, ok := fieldOf(x)
-					return ok && fr.Struct == "commit.header" && fr.Field == field
-				}, 5) {
-					return true
-				}
-			}
-			return false
-		}
-		ok := fromHdr(st["Offset"], "Value") && fromHdr(st["start"], "Value") && fromHdr(st["x0"], "Start") && fromHdr(st["x1"], "Start") && len(st["x1"]) >= 2 && len(st["parent"]) == 1
-		h.Check(ok, "(*commit.Reader).Range/section", r.P.Pos(fn.Pos()), "offset,start := header.Value; section = [header.Start, next.Start | len)", "Reader.Range does not restart the offset chain from the block header and bound the section by the next header")
-		// only matching blocks are handed to the callback
-		cbs := userCallIn(fn)
-		g := len(cbs) == 1 && edgeGuarded(cbs[0].Block(), func(c ssa.Value) (bool, bool) {
-			bo, ok := c.(*ssa.BinOp)
-			if !ok || (bo.Op != token.NEQ && bo.Op != token.EQL) {
-				return false, false
-			}
-			okX := false
-			for _, o := range []ssa.Value{bo.X, bo.Y} {
-				if fr, ok := loadedField(o); ok && fr.Struct == "commit.header" && fr.Field == "Chunk" {
-					okX = true
-				}
-				if f, ok := o.(*ssa.Field); ok {
-					if fr, ok := fieldOf(f); ok && fr.Field == "Chunk" {
-						okX = true
-					}
-				}
-			}
-			if !okX {
-				return false, false
-			}
-			return true, bo.Op == token.EQL
-		})
-		h.Check(g, "(*commit.Reader).Range/match", r.P.Pos(fn.Pos()), "callback ⇐ header.Chunk == requested block", "Reader.Range hands sections of other blocks to the callback")
 	}
 	_ = strings.TrimSpace
 }
